@@ -327,3 +327,31 @@ def check_C04(sc, v, tier, seed, replay):
               "the real bytes equal the reference encoder's bytes are at the same time canonical encodings of an independent encoder; "
               "distinct = distinct value tree")
     v.assumptions = ["tree equality is on the Go representation including the unused bits of a BIT STRING's last octet"]
+
+
+# ------------------------------------------------------------------------------------------------
+# C13  gNB-side builders
+# ------------------------------------------------------------------------------------------------
+def check_C13(sc, v, tier, seed, replay):
+    sc.build(["rec-build"])
+    trace = os.path.join(sc.work, "build.ndjson")
+    schema = os.path.join(sc.work, "schema.json")
+    sc.run("rec-build", ["-seed", seed, "-tier", tier, "-out", trace, "-schema", schema])
+    results, rejects, lines = vlib.validate_trace(sc, "TraceBuild", trace, constants={"SchemaPath": schema})
+    v.add_tlc(results)
+    v.traces = len(results)
+    evs = [json.loads(l) for l in lines]
+    v.evaluations = len(evs)
+    for e in evs:
+        v.distinct.add(canon([e["fn"], e["args"]]))
+    v.extra["builders_covered"] = len(set(e["fn"] for e in evs))
+    v.samples = [{"fn": e["fn"], "args": e["args"], "bytes": e["bytes"][:48]} for e in evs[:3]]
+    v.rule = ("the 14 build-and-encode wrappers and every implemented Build* function x identifiers in and just outside their ASN.1 ranges "
+              "(0, 1, 255, 256, 65535, 65536, 2^32-1, 2^32, 2^40-1, 2^40, -1) x NAS-PDU lengths 0..5000 x IPv4 addresses x gNB id 22..32 bits x "
+              "names 1..150 x PLMN re-announced by NG Setup; distinct = (builder, arguments)")
+    v.assumptions = ["decoding inside TLC uses the type dictionary exported from the struct tags; the constraints of the IE types the emulator "
+                     "fills in and the clause 9.2 IE tables are hand transcriptions of TS 38.413 (Ngap.tla) checked against it"]
+
+    def key(r, e):
+        return "%s:%s" % (e.get("fn"), r["why"][:80])
+    _reject_to_violation(v, rejects, key)
